@@ -263,6 +263,8 @@ def verify_function(contract: Contract, specs=None, variant=None) -> FunctionRep
                 raise OutOfSubset(f"start_at_loop={sal}: no such top-level loop")
             body = body[idx:]
             rep.assumptions.append(f"{contract.qual}: verified from loop {sal} onward (prelude dropped; locals {sorted(types)} are inputs)")
+        if contract.opts.get("no_swallow"):
+            st.vars["__swallowed"] = sym.VBool(z3.BoolVal(False))
         outs = ex.exec_block(body, st)
         rep.exits = len(outs)
         normal_pcs = []
@@ -289,6 +291,11 @@ def verify_function(contract: Contract, specs=None, variant=None) -> FunctionRep
                 extra = {"result": res}
                 for gname_ in ex.ghost_names():
                     extra[gname_] = s2.ghost.get(gname_, Val("l", sym.EMPTY_LIST))
+                if contract.opts.get("no_swallow"):
+                    sw = s2.vars.get("__swallowed")
+                    g = z3.Not(sw.e) if isinstance(sw, Val) else z3.BoolVal(True)
+                    rep.obligations.append(Obligation(f"{site}::no-swallow@{exit_id}", "post", list(s2.pc), g,
+                                                      {"exit": exit_id, "clause": "no_exception_swallowed", "line": ln}))
                 ind_ = contract.opts.get("independent_of")
                 if ind_ is not None and ind_.get("result") and o.sig == "return":
                     # the RESULT varies with the declared sources only through the declassified functions
